@@ -389,11 +389,15 @@ def run_script_real(cfg: Cfg, items):
                     d.addErrback(lambda f: None)    # a failed capture is looked at through the log, not stderr
                     captures.append((fp, None, len(c.log)))
                 else:
-                    fp = io.BytesIO()
+                    # the public entry point (captureRegion takes a file name; the format follows its extension)
+                    import tempfile
                     _, x, y, w, h = it
-                    d = c._capture(fp, False, x, y, x + w, y + h, format="png")
+                    fd, path = tempfile.mkstemp(prefix="verif-rcap-", suffix=".png")
+                    os.close(fd)
+                    os.unlink(path)
+                    d = c.captureRegion(path, x, y, w, h)
                     d.addErrback(lambda f: None)
-                    captures.append((fp, (x, y, w, h), len(c.log)))
+                    captures.append((path, (x, y, w, h), len(c.log)))
             except Exception as e:  # noqa: BLE001
                 crashed = type(e).__name__ + ": " + str(e)[:80]
                 break
@@ -401,7 +405,14 @@ def run_script_real(cfg: Cfg, items):
     out = []
     from PIL import Image
     for fp, region, pos in captures:
-        data = fp.getvalue()
+        if isinstance(fp, str):
+            data = b""
+            if os.path.exists(fp):
+                with open(fp, "rb") as fh:
+                    data = fh.read()
+                os.unlink(fp)
+        else:
+            data = fp.getvalue()
         img = None
         if data:
             im = Image.open(io.BytesIO(data)).convert("RGB")
